@@ -76,6 +76,7 @@ pub open spec fn rel_true() -> Rel { |i: int, j: int| true }
 
 pub open spec fn rel_implies(a: Rel, b: Rel) -> bool { forall|i: int, j: int| #[trigger] a(i, j) ==> b(i, j) }
 
+#[verifier::opaque]
 pub open spec fn step_rel(rel: Rel, st: St, ev: Ev) -> St {
     match ev {
         Ev::Equal(o, n, l) => St {
@@ -156,6 +157,7 @@ pub proof fn lemma_sim_step(r1: Rel, r2: Rel, a: St, c: St, e: Ev)
   ensures ({ let a2 = step_rel(r1, a, e); let c2 = step_rel(r2, c, e);
      sim(a2, c2) && a2.dels - a.dels == c2.dels - c.dels && a2.inss - a.inss == c2.inss - c.inss && a2.eqs - a.eqs == c2.eqs - c.eqs })
 {
+    reveal(step_rel);
     match e {
         Ev::Equal(o, n, l) => {
             if step_rel(r2, c, e).ok {
@@ -188,6 +190,7 @@ pub proof fn lemma_mono(rel: Rel, st: St, s: Seq<Ev>)
       && st2.oe == st.oe && st2.ne == st.ne && st2.eqs >= st.eqs && st2.dels >= st.dels && st2.inss >= st.inss && (st2.ok ==> st.ok) })
   decreases s.len()
 {
+    reveal(step_rel);
     if s.len() > 0 { lemma_mono(rel, st, s.drop_last()); }
 }
 
@@ -271,6 +274,7 @@ pub proof fn lemma_seg_push(rel: Rel, a: Seq<Ev>, e: Ev, o0: int, n0: int, o1: i
   ensures seg_rel(rel, a.push(e), o0, n0, ev_o1(e, o1), ev_n1(e, n1)),
       seg_eqs(rel, a.push(e), o0, n0, ev_o1(e, o1), ev_n1(e, n1)) == seg_eqs(rel, a, o0, n0, o1, n1) + ev_eqs(e)
 {
+    reveal(step_rel);
     let o2 = ev_o1(e, o1); let n2 = ev_n1(e, n1);
     assert(o0 <= o1 && n0 <= n1) by { reveal(seg_rel); }
     lemma_seg_any(rel, rel, a, o0, n0, o1, n1, canon(o0, n0, o2, n2));
